@@ -32,7 +32,7 @@ struct Shared {
 
 #[cfg(feature = "verif")]
 pub fn run(rest: &str) -> String {
-    use async_lsp::concurrency::ConcurrencyLayer;
+
     use async_lsp::server::LifecycleLayer;
     use tokio_util::compat::{TokioAsyncReadCompatExt, TokioAsyncWriteCompatExt};
     use tower::ServiceBuilder;
@@ -99,7 +99,7 @@ pub fn run(rest: &str) -> String {
         let (mainloop, _) = async_lsp::MainLoop::new_server(|client| {
             ServiceBuilder::new()
                 .layer(LifecycleLayer::default())
-                .layer(ConcurrencyLayer::default())
+
                 .service(lsp::server::Server::new_router(client))
         });
         tokio::spawn(async move {
